@@ -143,29 +143,31 @@ fn build_resolver(case: &Value, env: &Arc<Env>, single: bool, reattach: bool) ->
 }
 
 /// Drives `fut` to completion, opening the gates in the given order; returns the output.
-fn drive<T>(mut fut: Pin<Box<dyn Future<Output = T> + '_>>, env: &Env, order: &[String], all: &[String]) -> Result<T, String> {
+/// The flag says whether the call returned only after gates BEYOND the modelled completion order were opened: the property
+/// does not say when the call returns, so that is a deviation from the reference (which resolves concurrently), not a fault.
+fn drive<T>(mut fut: Pin<Box<dyn Future<Output = T> + '_>>, env: &Env, order: &[String], all: &[String]) -> Result<(T, bool), String> {
   let flag = Arc::new(FlagWaker(std::sync::atomic::AtomicBool::new(false)));
   let waker = Waker::from(flag.clone());
   let mut cx = Context::from_waker(&waker);
   if let Poll::Ready(v) = fut.as_mut().poll(&mut cx) {
-    return Ok(v);
+    return Ok((v, false));
   }
   for d in order {
     env.gate(d).open();
     if let Poll::Ready(v) = fut.as_mut().poll(&mut cx) {
-      return Ok(v);
+      return Ok((v, false));
     }
   }
   // the model says the call has returned by now; open everything so that a stuck future is reported, not hung
   for d in all {
     env.gate(d).open();
   }
-  for _ in 0..4 {
-    if let Poll::Ready(_) = fut.as_mut().poll(&mut cx) {
-      return Err("the call returned only after gates beyond the modelled completion order were opened".into());
+  for _ in 0..(all.len() + 4) {
+    if let Poll::Ready(v) = fut.as_mut().poll(&mut cx) {
+      return Ok((v, true));
     }
   }
-  Err("the call never returned".into())
+  Err("the call never returned although every handler has completed".into())
 }
 
 fn check_multiple(case: &Value, single: bool, reattach: bool) -> Result<Vec<(String, Value, Value)>, String> {
@@ -176,10 +178,13 @@ fn check_multiple(case: &Value, single: bool, reattach: bool) -> Result<Vec<(Str
   let dids: Vec<CoreDID> = arr(&case["input"]).iter().map(|d| CoreDID::parse(did_text(d)).unwrap()).collect();
   let order: Vec<String> = arr(&case["order"]).iter().map(did_text).collect();
   let all: Vec<String> = dids.iter().map(|d| d.to_string()).collect();
-  let out = match &resolver {
+  let (out, late) = match &resolver {
     AnyResolver::SendSync(r) => drive(Box::pin(r.resolve_multiple(&dids)), &env, &order, &all)?,
     AnyResolver::Single(r) => drive(Box::pin(r.resolve_multiple(&dids)), &env, &order, &all)?,
   };
+  if late {
+    diffs.push(("~returned_after_the_modelled_completions".into(), json!(order), json!("needed further handler completions")));
+  }
   let calls = env.calls.lock().unwrap().clone();
   // ---- dispatch ----
   let handlers: Vec<&str> = arr(&case["handlers"]).iter().map(s).collect();
@@ -199,7 +204,8 @@ fn check_multiple(case: &Value, single: bool, reattach: bool) -> Result<Vec<(Str
   if n != seen.len() {
     diffs.push(("duplicate_resolution".into(), json!("one invocation per distinct DID"), json!(calls)));
   }
-  if !b(&case["unsupported"]) && seen != distinct {
+  // every distinct DID has to be resolved for the call to succeed; a failing call may stop early
+  if s(&case["result"]) == "ok" && seen != distinct {
     diffs.push(("missing_invocation".into(), json!(distinct), json!(seen)));
   }
   // ---- outcome ----
@@ -236,8 +242,8 @@ fn check_single(case: &Value, single: bool, reattach: bool) -> Result<Vec<(Strin
     let text = did_text(d);
     let did = CoreDID::parse(&text).unwrap();
     let out = match &resolver {
-      AnyResolver::SendSync(r) => drive(Box::pin(r.resolve(&did)), &env, &[text.clone()], &[text.clone()])?,
-      AnyResolver::Single(r) => drive(Box::pin(r.resolve(&did)), &env, &[text.clone()], &[text.clone()])?,
+      AnyResolver::SendSync(r) => drive(Box::pin(r.resolve(&did)), &env, &[text.clone()], &[text.clone()])?.0,
+      AnyResolver::Single(r) => drive(Box::pin(r.resolve(&did)), &env, &[text.clone()], &[text.clone()])?.0,
     };
     let calls = env.calls.lock().unwrap().clone();
     let supported = handlers.contains(&s(&d["m"]));
@@ -304,11 +310,11 @@ fn check_did_jwk(rep: &mut Report) {
         let out = if single {
           let mut rs: SingleThreadedResolver<CoreDocument> = SingleThreadedResolver::new();
           rs.attach_did_jwk_handler();
-          drive(Box::pin(rs.resolve(&did)), &env, &[], &[])?
+          drive(Box::pin(rs.resolve(&did)), &env, &[], &[])?.0
         } else {
           let mut rs: Resolver<CoreDocument> = Resolver::new();
           rs.attach_did_jwk_handler();
-          drive(Box::pin(rs.resolve(&did)), &env, &[], &[])?
+          drive(Box::pin(rs.resolve(&did)), &env, &[], &[])?.0
         };
         match out {
           Err(_) => Ok(if public { Some("resolution of a did:jwk over a public JWK failed".into()) } else { None }),
